@@ -179,7 +179,15 @@ def followup(a, fs, res, label, replay, variant, state_final, nlev_loss_rng, kil
             return False
         pr = scen.verify_tree(a, fs, state_final, allow_extra=True)
         if pr:
-            V.append(("resume:fix-wrong-result", "%s: after resume-sync, lost %s: %s" % (label, lost, evidence.jsonable(pr[:3])), replay))
+            why = ""
+            try:
+                if a.load_content().blockmax == 0 and all(p_["what"] == "missing" for p_ in pr):
+                    # recorded mechanism (F26, found by C01): no file of the array has any block, fix returns before the
+                    # pass that re-creates empty files, links and directories
+                    why = "/array-without-any-file-block(fix-returns-before-recreating-empty-files-links-dirs)"
+            except Exception:
+                pass
+            V.append(("resume:fix-wrong-result" + why, "%s: after resume-sync, lost %s: %s" % (label, lost, evidence.jsonable(pr[:3])), replay))
             return False
     rc = a.cmd("check", variant=variant)
     if rc.rc != 0:
@@ -427,7 +435,9 @@ def run_fix_scenario(case):
     rng = random.Random("c07-fix-%d-%d" % (seed, idx))
     variant = "asan" if idx % 5 == 4 else "plain"
     res = dict(key="fix-scn-%d" % idx, violations=[], counters={}, nontrivial=False)
-    cfg = scen.gen_config(rng, force=dict(nlev=rng.randint(1, 3), nd=rng.randint(2, 4), ncontent=2, content_on_data=False))
+    # hash size 16 only (as in the sync half): with 2..8 byte hashes a block that cannot be rebuilt is now and then "verified"
+    # by a colliding hash, depending on the state the interruption left in the parity
+    cfg = scen.gen_config(rng, force=dict(nlev=rng.randint(1, 3), nd=rng.randint(2, 4), ncontent=2, content_on_data=False, hashsize=16))
     # one scenario in three: 'fix -m' (only what is missing) on an array whose files are fragmented over the parity by earlier
     # delete/add rounds, stopped gracefully: several files of one disk can be begun and unfinished at the same stripe
     only_missing = idx % 3 == 2
@@ -540,11 +550,27 @@ def run_fix_scenario(case):
                     res["counters"]["twin_fix_not_at_fixpoint"] = res["counters"].get("twin_fix_not_at_fixpoint", 0) + (1 if twin2["tree"] != twin_tree else 0)
                 if twin2["tree"] != twin_tree:
                     ref_tree = twin2["tree"]
+            def recovered_instead(key_):
+                """the resumed run holds the RECORDED version of a file (bytes and time-stamp) where the uninterrupted run
+                gave up and left 'name.unrecoverable': more was recovered, nothing is different or worse (seen when the
+                interruption left a zero-filled, grown parity file behind that happens to be right for an all-zero file)"""
+                base = key_[1][:-len(b".unrecoverable")] if key_[1].endswith(b".unrecoverable") else key_[1]
+                y_ = now.get((key_[0], base))
+                e0 = state0[key_[0]].get(base)
+                if y_ is None or e0 is None or e0[0] != "file" or y_[0] != "file":
+                    return False
+                if ref_tree.get((key_[0], base)) is not None or ref_tree.get((key_[0], base + b".unrecoverable")) is None:
+                    return False
+                import hashlib
+                return y_[1] == len(e0[1]) and y_[2] == e0[2] and y_[4] == hashlib.sha256(e0[1]).hexdigest()
             for key in sorted(set(now) | set(ref_tree)):
                 x, y = ref_tree.get(key), now.get(key)
                 if x is None or y is None:
                     # leftovers of the interrupted run are not part of "file contents, links and directories"
                     if y is not None and key[1].endswith(b".unrecoverable"):
+                        continue
+                    if recovered_instead(key):
+                        res["counters"]["resumed_fix_recovered_more_than_uninterrupted"] = res["counters"].get("resumed_fix_recovered_more_than_uninterrupted", 0) + 1
                         continue
                     diffs.append((key, "missing" if y is None else "extra"))
                 elif x[0] != y[0] or x[1] != y[1] or x[4] != y[4]:
